@@ -270,5 +270,36 @@ def run(facts, rep, tier, ctx):
         run_world(facts, rep, wa, {"results": 20, "err_edges": 5, "kind_arms": 4})
     else:
         rep.fail("R20.1", "async_vfs", "async world present", "async_vfs module not found")
+    # R20.6 the one error kind a composite tolerates (DirectoryExists, by create_dir_all) is built only on positive evidence
+    # that a directory is there: a failed probe that falls into the "directory" arm turns an underlying failure into
+    # a success of create_dir_all with nothing in place
+    import os
+    from ..report import Report
+    from ..panics import Discharger, load_records
+    from .. import physrules
+    from . import c01, c09
+    D = Discharger(facts, load_records(os.path.join(ctx["V"], "rules", "panic_records.json")))
+    k = 0
+    for w_ in (ws, wa):
+        if not w_.present():
+            continue
+        tag = "A/" if w_.asyncw else ""
+        scratch = Report("x")
+        c09.table_u(facts, scratch, w_, "U", only=("create_dir",))
+        c01.table_m(facts, scratch, "M", "Mk", self_ty=w_.memory, trait=w_.trait.rsplit("::", 1)[1], ops_filter=("create_dir",))
+        physrules.table_o_shape(facts, scratch, "O", w_)
+        for o in scratch.obligations:
+            d = o["key"].split("|")[2]
+            if "DirectoryExists" in d:
+                k += 1
+                rep.ob(tag + "R20.6", o["fn"], d, o["ok"], o["detail"], o["loc"])
+    rep.floor("tolerated-kind construction sites", k, 6)
+    # R20.7 the async walk: a failed per-entry future is not kept in its slot (polling it again panics), an error item is
+    # yielded once (typestate of poll_next, shared with C15 R15.4)
+    if wa.present():
+        from . import c15
+        from .c10 import _Prefixed
+        k = c15.poll_next_rules(facts, _Prefixed(rep, "R20.7"), D)
+        rep.floor("poll_next typestate obligations", k, 12)
     rep.assume("`?` (Try::branch + from_residual) propagates; panicking consumers (unwrap/expect) are C13's concern")
     rep.assume("errors of pure path translation (join) are not underlying-filesystem failures")
